@@ -4,11 +4,13 @@
 -/
 import UnifexModel.Driver.Entry
 import UnifexModel.Driver.Entries.StopSource
+import UnifexModel.Driver.Entries.Cancel
 
 namespace Unifex.Driver
 
 def table : List ModelEntries :=
   [ Entries.stopsource
+  , Entries.cancellable
   ]
 
 def lookup (m c : String) : Option Entry :=
